@@ -312,7 +312,7 @@ theorem signals_lRangeH (args : List Bytes) (b : Body) (h : Handler2.lRangeH arg
   one_call
   exact frame_lrange st now _ _ _
 
-/-- LSET: `LLen`, then (in range) `LSet` as a second call -/
+/-- LSET: one call of `LSet` -/
 theorem signals_lSetH (args : List Bytes) (b : Body) (h : Handler2.lSetH args = .exec b) : SignalsChanges b := by
   unfold Handler2.lSetH at h
   split at h
@@ -320,11 +320,8 @@ theorem signals_lSetH (args : List Bytes) (b : Body) (h : Handler2.lSetH args = 
     split at h
     · cases h
     · cases h
-      refine signals_of_frame fun st now ch hp => frame_call2 hp _ _ (frame_llen st now _) fun s o hps => ?_
-      split
-      · exact Frame.refl _ _
-      · exact (frame_commit s).trans0
-          (frame_call _ _ (fun _ _ => rfl) (frame_lset (Api.commit s) hps now _ _ _))
+      exact signals_of_frame fun st now ch hp =>
+        frame_call _ _ (fun _ o => by cases o <;> first | rfl | (rename_i b; cases b <;> rfl)) (frame_lset st hp now _ _ _)
   · cases h
 
 theorem signals_rotateH (left : Bool) (args : List Bytes) (b : Body) (h : Handler2.rotateH left args = .exec b) :
